@@ -60,6 +60,10 @@ def build_registry(mods):
     reg.models[common.forall_range] = _models.q_forall
     reg.models[common.exists_range] = _models.q_exists
     reg.models[common.is_opaque] = _models.m_is_opaque
+    from . import texts as _texts
+    reg.models[common.prefix_join] = _texts.m_prefix_join
+    reg.models[common.yielded] = _texts.m_yielded
+    reg.models[common.peek] = _texts.m_peek
     reg.link()
     # loop specs keyed by (file, ast-qualname, ordinal)
     for (q, ordinal), ls in reg.loops.items():
